@@ -503,7 +503,11 @@ def gen_plan(run_seed, tier, index):
             raw = raw.replace(b'no colon here: \r\n', b'no colon here\r\n')
         m = {'raw': raw.decode('latin-1'), 'expect': exp, 'mut': names,
              'id': iid}
-        if rq.get('_ambiguous'):
+        if rq.get('_ambiguous') or (
+                iid is not None and
+                ('<VALUE>%s</VALUE>' % iid).encode('ascii') not in raw):
+            # (a mutation may also have altered the identifier the delivery
+            # is recognised by, e.g. inserted bytes into it)
             m['ambiguous'] = True
         if rq.get('_half_close') or r.random() < 0.4:
             m['half_close'] = True
